@@ -664,6 +664,7 @@ def execute(record: dict, rng: Optional[random.Random]) -> Outcome:
                     (res,) = dask.compute(rd, scheduler=sim, optimize_graph=dcfg["optimize"])
             finally:
                 if kernel is not None:
+                    ch.count("preemption", kernel.switches)  # context switches between worker threads actually taken
                     kernel.shutdown()
                     activate(None)
             outs.append(np.asarray(res.values))
